@@ -730,3 +730,6 @@ TRUSTED_BASE[:] = [t.replace("u64/usize overflow, allocation, HashMap iteration 
 NOTE = NOTE.replace("u64 overflow, HashMap iteration order, sha3 and allocation are outside the model.", "u64 overflow, sha3 and allocation are outside the model; HashMap iteration order is proved irrelevant (Props/IterOrder.lean).")
 for _k in MANIFEST_TEXT:
     MANIFEST_TEXT[_k]["note"] = MANIFEST_TEXT[_k]["note"].replace("u64 overflow, HashMap iteration order, sha3 and allocation are outside the model.", "u64 overflow, sha3 and allocation are outside the model; HashMap iteration order is proved irrelevant (Props/IterOrder.lean).")
+
+PROPS["C16"]["required_theorems"] += ["Crdt.C16.map_second_key_always_rejected", "Crdt.C16.map_second_key_error"]
+PROPS["C16"]["explanation"] += " The defect F7 in general form: at EVERY Map state the API-built update of a key the replica does not hold, by an actor that has issued any update before, is rejected at its origin with SourceOrder(a, 1..clock[a]+1) (map_second_key_always_rejected, map_second_key_error)."
